@@ -58,10 +58,17 @@ class TD:
 
 class DT:
     """timezone-aware UTC datetime.datetime as integer microseconds since the epoch."""
-    __slots__ = ('us',)
+    __slots__ = ('us', 'parts')
 
-    def __init__(self, us):
+    def __init__(self, us, parts=None):
         self.us = us
+        self.parts = parts      # optional (day number, second of day, microsecond) the instant was built from
+
+    @staticmethod
+    def decomposed(prefix):
+        day, sec, usec = z3.Int(prefix + '_day'), z3.Int(prefix + '_sec'), z3.Int(prefix + '_usec')
+        return (DT(86400 * 10**6 * day + 10**6 * sec + usec, (day, sec, usec)),
+                z3.And(0 <= sec, sec < 86400, 0 <= usec, usec < 10**6))
 
     def __repr__(self):
         return f'DT({self.us})'
